@@ -82,6 +82,18 @@ def cases(tier, seed, i, n):
                                            sends=sends, ct=2.0, seg='coalesced', slow=['closed', 5.0])
                                 yield dict(pre=pre, sc=sc, end=end, at=at, args=APP_CLOSE_ARGS[k % len(APP_CLOSE_ARGS)],
                                            sends=sends, ct=2.0, seg='coalesced', slow=['closed', 5.0], pt=3.0)
+                                if sc in ('reply-between', 'reply-braces') and not pre:
+                                    # ... or in the handler of a message that arrived in the same read as the server's
+                                    # Close: the reply HAS arrived, the close timeout has nothing left to wait for.
+                                    # (Only the same-read case: a reply still unread in the socket when the handler returns
+                                    # is, for the client, not there yet - the statement does not say which clock counts.)
+                                    yield dict(pre=pre, sc=sc, end=end, at=at, args=APP_CLOSE_ARGS[k % len(APP_CLOSE_ARGS)],
+                                               sends=sends, ct=2.0, seg='coalesced', slow=['text', 5.0])
+                            if len(pre) <= 1 and at == 'never' and sc.startswith('first') and sends in ('every', 'none'):
+                                # the application takes 1.5 poll intervals to handle Closing: nothing - no Poll at
+                                # which it could still send, no timeout - comes between that event and the echo
+                                yield dict(pre=pre, sc=sc, end=end, at=at, args=[], sends=sends, ct=(None, 2.0)[k % 2], seg='coalesced',
+                                           slow=['closing', 1.5], pt=(None, 5.0)[k % 2])
                             if len(pre) <= 1 and at not in ('never', 'closed') and sends in ('every', 'text'):
                                 # the write of the application's Close frame itself fails (once)
                                 yield dict(pre=pre, sc=sc, end=end, at=at, args=APP_CLOSE_ARGS[k % len(APP_CLOSE_ARGS)],
@@ -345,6 +357,14 @@ def judge(case, run, w, truth, between, scode, sreason, acc):
                         if c['log_before'] > close_logidx:
                             key = 'send-during-closing-after-echo'
                             break
+        if key is None:
+            # "allows the application to send during that event only"
+            for c in run.calls:
+                if c['name'] != 'close' and c['ev'] > idx_closing:
+                    acc.count2('oracle', 'sends_after_closing_event_checked')
+                    if c['ok'] or c['wrote']:
+                        key = 'send-accepted-after-the-closing-event'
+                        break
         if key is None and case['end'] == 'stay' and run.end == 'stop' and evs[-1].name == 'disconnected' and evs[-1].graceful \
                 and not any(e[0] == 'recv' and e[5] == b'' for e in w.log):
             # "ends with a graceful Disconnected once the server drops the connection": the server never dropped it
